@@ -192,6 +192,8 @@ def getattr_(ex, o, name):
             if ho.model is not None and name in ho.model.fields:
                 raise Unsupported(f'field {name} of {ho.cls.__name__ if ho.cls else "?"} read before initialisation')
             ex.raise_(AttributeError, name)
+        if name == 'maxlen' and isinstance(ho, LObj) and ho.flavor == 'deque':
+            return ho.maxlen
         return Bound(name, o)
     if isinstance(o, Sym):
         return Bound(name, o)
@@ -498,6 +500,17 @@ def bytearray_method(ex, ref, ho, name, args, kwargs):
 def list_method(ex, ref, ho, name, args, kwargs):
     w = lambda: ex.wobj(ref)
     if name == 'append':
+        if ho.maxlen is not None:
+            # collections.deque(maxlen=n).append on a full deque discards the item at the left end
+            if ho.maxlen == 0:
+                return None
+            if ho.items is not None:
+                if len(ho.items) >= ho.maxlen:
+                    del w().items[0]
+            elif ex.branch(mk_bool(z3.Length(ho.sym.t) >= ho.maxlen)):
+                s_ = ho.sym.t
+                w().sym = Sym(z3.simplify(z3.Extract(s_, 1, z3.Length(s_) - 1)), ho.sym.k)
+                ho = ex.obj(ref)
         if ho.items is not None:
             w().items.append(args[0])
         else:
@@ -1391,10 +1404,12 @@ CLASS_MODELS[map] = m_map
 
 
 def m_deque(ex, *args, **kw):
-    if kw.get('maxlen') is not None:
-        raise Unsupported('deque(maxlen)')
+    maxlen = M.plain(kw.get('maxlen'))
+    if maxlen is not None and (not isinstance(maxlen, int) or args):
+        raise Unsupported('deque(iterable, maxlen) / symbolic maxlen')
     r = m_list(ex, *args)
     ex.wobj(r).flavor = 'deque'
+    ex.wobj(r).maxlen = maxlen
     return r
 
 
